@@ -84,7 +84,7 @@ SITE_ENTRY = {
     "typelib.graph.static_order": "staticOrder",
     "typelib.py.inspection.cached_type_hints": "cachedTypeHints",
     "typelib.py.inspection.cached_signature": "cachedSignature",
-    "typelib.py.inspection.safe_get_params": "cachedSignature",
+    "typelib.py.inspection.safe_get_params": "cachedTypeHints",
     "typelib.py.inspection.cached_simple_attributes": "cachedSimpleAttrs",
     "typelib.py.inspection.unwrap": "inspectUnwrap",
     "typelib.py.inspection.origin": "inspectUnwrap",
@@ -278,7 +278,34 @@ def deep_mutate(x, depth=0, seen=None):
 
 
 def _mutable_ids(x, acc, depth=0):
-    core._walk_ids(x, acc, depth)
+    """ids of the mutable builtin containers reachable from a result through containers and through instances of the
+    synthesised classes (never through classes, annotations or library objects)."""
+    import collections
+    if depth > 100 or isinstance(x, type):
+        return
+    if isinstance(x, (list, dict, set, collections.deque, bytearray)):
+        if id(x) in acc:
+            return
+        acc.add(id(x))
+    if isinstance(x, dict):
+        for k, v in x.items():
+            _mutable_ids(k, acc, depth + 1)
+            _mutable_ids(v, acc, depth + 1)
+    elif isinstance(x, (list, tuple, set, frozenset, collections.deque)):
+        for e in x:
+            _mutable_ids(e, acc, depth + 1)
+    else:
+        mod = getattr(type(x), "__module__", "")
+        if mod.startswith("vm_") or mod.startswith("c12_"):
+            names = list(vars(x)) if hasattr(x, "__dict__") else []
+            for klass in type(x).__mro__:
+                sl = klass.__dict__.get("__slots__", ())
+                names += [sl] if isinstance(sl, str) else list(sl)
+            for nm in names:
+                try:
+                    _mutable_ids(getattr(x, nm), acc, depth + 1)
+                except AttributeError:
+                    pass
 
 
 # ================================================================================================ (A) per-site obligations
@@ -393,41 +420,51 @@ def _probe_codec(c):
 
 
 def _site_child(job):
-    """Child: run the call expression on the keys seq[0], seq[1], ... in order (a fresh key object each time);
-    optionally deep-mutate every result right after it is returned.  Per call: outcome, class / mutability / identity of the
-    result, whether it shares mutable structure with an earlier result, whether the key object changed."""
+    """Child: for every key index of job['seq'] in order (a fresh key object each time) evaluate every call expression of
+    job['calls']; optionally deep-mutate every result right after it is returned.  Per step, per call: outcome, class /
+    mutability of the result, whether it IS the object the same call returned in an earlier step, whether it shares mutable
+    structure with it, whether the key object changed during the call."""
     ns = _keys_ns()
-    out, results = [], []
+    if job.get("tt"):
+        ns["TT"] = eval(job["tt"], dict(ns))
+    out = []
+    prev = [[] for _ in job["calls"]]
     for step, ki in enumerate(job["seq"]):
-        k = eval(job["keys"][ki], dict(ns))
-        before = _outcome(lambda: k)
-        rec = {}
-        try:
-            r = eval(job["call"], dict(ns, K=k))
-            rec["out"] = {"ok": describe(r)}
-            rec["cls"] = type(r).__name__
-            rec["mutable"] = _is_mutable_container(r)
-            ids = set()
-            _mutable_ids(r, ids)
-            rec["same_as"] = [i for i, (pr, _) in enumerate(results) if pr is r]
-            rec["shares_with"] = [i for i, (_, pids) in enumerate(results) if ids & pids]
-            results.append((r, ids))
-            if job.get("mutate"):
-                rec["mutated"] = deep_mutate(r)
-        except BaseException as e:  # noqa: BLE001
-            if isinstance(e, (KeyboardInterrupt, SystemExit, MemoryError)):
-                raise
-            rec["out"] = {"err": enc.err_class(e), "msg": f"{type(e).__name__}: {e}"[:160]}
-            results.append((object(), set()))
-        after = _outcome(lambda: k)
-        rec["key_changed"] = before != after
-        if step == 0 and len(job["seq"]) > 1 and job.get("eq"):
-            k2 = eval(job["keys"][job["seq"][1]], dict(ns))
+        recs = []
+        for ci, call in enumerate(job["calls"]):
+            k = eval(job["keys"][ki], dict(ns))
+            before = _outcome(lambda: k)
+            rec = {}
             try:
-                rec["keys_equal"] = bool(k == k2) and hash(k) == hash(k2)
+                r = eval(call, dict(ns, K=k))
+                rec["out"] = {"ok": describe(r)}
+                rec["key_changed"] = before != _outcome(lambda: k)
+                rec["cls"] = type(r).__name__
+                rec["mutable"] = _is_mutable_container(r)
+                ids = set()
+                _mutable_ids(r, ids)
+                rec["has_mutable"] = bool(ids)
+                rec["same_as"] = [i for i, (pr, _) in enumerate(prev[ci]) if pr is r]
+                rec["shares_with"] = [i for i, (_, pids) in enumerate(prev[ci]) if ids & pids]
+                prev[ci].append((r, ids))
+                if job.get("mutate"):
+                    rec["mutated"] = deep_mutate(r)
+            except BaseException as e:  # noqa: BLE001
+                if isinstance(e, (KeyboardInterrupt, SystemExit, MemoryError)):
+                    raise
+                rec["out"] = {"err": enc.err_class(e), "msg": f"{type(e).__name__}: {e}"[:160]}
+                rec["key_changed"] = before != _outcome(lambda: k)
+                prev[ci].append((object(), set()))
+            recs.append(rec)
+        if step == 0 and len(job["seq"]) > 1:
+            k1, k2 = eval(job["keys"][job["seq"][0]], dict(ns)), eval(job["keys"][job["seq"][1]], dict(ns))
+            try:
+                eq = bool(k1 == k2) and hash(k1) == hash(k2)
             except TypeError:
-                rec["keys_equal"] = bool(k == k2)
-        out.append(rec)
+                eq = bool(k1 == k2)
+            for rec in recs:
+                rec["keys_equal"] = eq
+        out.append(recs)
     return out
 
 
@@ -439,16 +476,18 @@ def _texts(t, se=None):
     return ks
 
 
+# (call expression, entry of the site table that memoises it (None: nothing keyed by K), public operation?)
 TEXT_CALLS = [
-    ("serdes.strload(K)", "strload"), ("serdes.load(K)", "strload"), ("serdes.decode(K)", None),
-    ("typelib.unmarshal(int, K)", "strload"), ("typelib.unmarshal(str, K)", "strload"),
-    ("typelib.unmarshal(list[int], K)", "strload"), ("typelib.unmarshal(dict[str, list[int]], K)", "strload"),
-    ("typelib.unmarshal(tuple[int, ...], K)", "strload"), ("typelib.unmarshal(set[int], K)", "strload"),
-    ("typelib.unmarshal(datetime.date, K)", "dateparse"), ("typelib.unmarshal(typing.Union[int, str], K)", "strload"),
-    ("typelib.unmarshal(typing.Optional[int], K)", "strload"), ("typelib.unmarshal(SE, K)", "strload"),
-    ("typelib.unmarshal(bool, K)", "strload"), ("typelib.unmarshal(typing.Literal['1', 1, None], K)", "strload"),
-    ("typelib.marshal(K)", None), ("typelib.encode(K)", None), ("typelib.decode(list[int], K)", None),
-    ("typelib.decode(typing.Any, K)", None),
+    ("serdes.strload(K)", "strload", True), ("serdes.load(K)", "strload", True), ("serdes.decode(K)", None, True),
+    ("typelib.unmarshal(int, K)", "strload", True), ("typelib.unmarshal(str, K)", "strload", True),
+    ("typelib.unmarshal(list[int], K)", "strload", True), ("typelib.unmarshal(dict[str, list[int]], K)", "strload", True),
+    ("typelib.unmarshal(tuple[int, ...], K)", "strload", True), ("typelib.unmarshal(set[int], K)", "strload", True),
+    ("typelib.unmarshal(datetime.date, K)", "dateparse", True),
+    ("typelib.unmarshal(typing.Union[int, str], K)", "strload", True),
+    ("typelib.unmarshal(typing.Optional[int], K)", "strload", True), ("typelib.unmarshal(SE, K)", "strload", True),
+    ("typelib.unmarshal(bool, K)", "strload", True), ("typelib.unmarshal(typing.Literal['1', 1, None], K)", "strload", True),
+    ("typelib.marshal(K)", None, True), ("typelib.encode(K)", None, True), ("typelib.decode(list[int], K)", None, True),
+    ("typelib.decode(typing.Any, K)", None, True),
 ]
 TEXT_GROUPS = [
     {"name": "text:null", "keys": _texts("null", "null")}, {"name": "text:1", "keys": _texts("1", "one")},
@@ -458,8 +497,10 @@ TEXT_GROUPS = [
     {"name": "text:csv", "keys": _texts("1,2")}, {"name": "text:true", "keys": _texts("true", "true")},
     {"name": "text:1.0", "keys": _texts("1.0")},
 ]
-STR_ONLY_CALLS = [("serdes.dateparse(K, datetime.date)", "dateparse"), ("serdes.dateparse(K, datetime.datetime)", "dateparse"),
-                  ("SITE('typelib.serdes._strload')(K)", "strloadRaw"), ("SITE('typelib.py.future.transform')(K)", "futureTransform")]
+STR_ONLY_CALLS = [("serdes.dateparse(K, datetime.date)", "dateparse", True),
+                  ("serdes.dateparse(K, datetime.datetime)", "dateparse", True),
+                  ("SITE('typelib.serdes._strload')(K)", "strloadRaw", False),
+                  ("SITE('typelib.py.future.transform')(K)", "futureTransform", False)]
 STR_ONLY_GROUPS = [
     {"name": "str:date", "keys": ["'2020-01-02'", "S('2020-01-02')", "SE.day"]},
     {"name": "str:null", "keys": ["'null'", "S('null')", "SE.null"]},
@@ -467,41 +508,48 @@ STR_ONLY_GROUPS = [
     {"name": "str:ann", "keys": ["'int | str'", "S('int | str')", "'str | int'"]},
 ]
 
+# TT = the group's class.  (No `typelib.marshal(K)` without t: static_order(pendulum.DateTime) does not terminate.)
 DT_CALLS = [
-    ("serdes.isoformat(K)", None), ("typelib.marshal(K)", None), ("typelib.marshal(K, t=type(K))", None),
-    ("typelib.encode(K)", None), ("typelib.unmarshal(datetime.datetime, K)", None), ("typelib.unmarshal(str, K)", None),
-    ("typelib.unmarshal(datetime.date, K)", None), ("typelib.unmarshal(datetime.time, K)", None),
-    ("typelib.marshal([K, K], t=list[type(K)])", None), ("typelib.marshal({K: 1})", None),
-    ("typelib.unmarshal(typing.Union[datetime.datetime, datetime.time, str], K)", None), ("typelib.unmarshal(float, K)", None),
+    ("serdes.isoformat(K)", None, True), ("typelib.marshal(K, t=TT)", None, True),
+    ("typelib.marshal(K, t=typing.Union[TT, str])", None, True),
+    ("typelib.encode(K, t=TT)", None, True), ("typelib.unmarshal(datetime.datetime, K)", None, True),
+    ("typelib.unmarshal(str, K)", None, True), ("typelib.unmarshal(datetime.date, K)", None, True),
+    ("typelib.unmarshal(datetime.time, K)", None, True), ("typelib.marshal([K, K], t=list[TT])", None, True),
+    ("typelib.marshal({K: 1}, t=dict[TT, int])", None, True),
+    ("typelib.unmarshal(typing.Union[datetime.datetime, datetime.time, str], K)", None, True),
+    ("typelib.unmarshal(float, K)", None, True), ("typelib.unmarshal(TT, K)", None, True),
 ]
 DT_GROUPS = [
-    {"name": "instant", "keys": ["datetime.datetime(2020, 1, 1, 12, 0, tzinfo=UTC)",
-                                 "datetime.datetime(2020, 1, 1, 17, 30, tzinfo=tz(19800))",
-                                 "datetime.datetime(2020, 1, 1, 7, 0, tzinfo=tz(-18000))",
-                                 "pendulum.datetime(2020, 1, 1, 12)",
-                                 "datetime.datetime(2020, 1, 2, 0, 0, 0, 5, tzinfo=tz(43200))"]},
-    {"name": "time", "keys": ["datetime.time(12, 0, tzinfo=UTC)", "datetime.time(17, 30, tzinfo=tz(19800))",
-                              "datetime.time(7, 0, tzinfo=tz(-18000))", "datetime.time(12, 0)"]},
-    {"name": "timedelta", "keys": ["datetime.timedelta(days=1)", "datetime.timedelta(hours=24)",
-                                   "pendulum.duration(days=1)", "datetime.timedelta(seconds=86400.0)"]},
+    {"name": "instant", "tt": "datetime.datetime",
+     "keys": ["datetime.datetime(2020, 1, 1, 12, 0, tzinfo=UTC)", "datetime.datetime(2020, 1, 1, 17, 30, tzinfo=tz(19800))",
+              "datetime.datetime(2020, 1, 1, 7, 0, tzinfo=tz(-18000))", "pendulum.datetime(2020, 1, 1, 12)",
+              "datetime.datetime(2020, 1, 2, 0, 0, 0, 5, tzinfo=tz(43200))"]},
+    {"name": "time", "tt": "datetime.time",
+     "keys": ["datetime.time(12, 0, tzinfo=UTC)", "datetime.time(17, 30, tzinfo=tz(19800))",
+              "datetime.time(7, 0, tzinfo=tz(-18000))", "datetime.time(12, 0)"]},
+    {"name": "timedelta", "tt": "datetime.timedelta",
+     "keys": ["datetime.timedelta(days=1)", "datetime.timedelta(hours=24)", "pendulum.duration(days=1)",
+              "datetime.timedelta(seconds=86400.0)"]},
 ]
 
 NUM_CALLS = [
-    ("typelib.unmarshal(int, K)", None), ("typelib.unmarshal(float, K)", None), ("typelib.unmarshal(str, K)", None),
-    ("typelib.unmarshal(bool, K)", None), ("typelib.unmarshal(decimal.Decimal, K)", None),
-    ("typelib.unmarshal(typing.Union[int, str], K)", None), ("typelib.unmarshal(typing.Union[bool, float, int], K)", None),
-    ("typelib.unmarshal(datetime.datetime, K)", None), ("typelib.unmarshal(datetime.timedelta, K)", None),
-    ("typelib.unmarshal(datetime.date, K)", None), ("typelib.unmarshal(typing.Literal[1, True], K)", None),
-    ("typelib.unmarshal(list[int], [K, K])", None), ("typelib.unmarshal(dict[int, int], {K: K})", None),
-    ("typelib.marshal(K)", None), ("typelib.marshal(K, t=float)", None), ("typelib.marshal([K], t=list[int])", None),
-    ("typelib.encode(K)", None), ("typelib.unmarshal(IE, K)", None),
-    ("typelib.marshal(K, t=typing.Union[bool, int, float])", None),
+    ("typelib.unmarshal(int, K)", None, True), ("typelib.unmarshal(float, K)", None, True), ("typelib.unmarshal(str, K)", None, True),
+    ("typelib.unmarshal(bool, K)", None, True), ("typelib.unmarshal(decimal.Decimal, K)", None, True),
+    ("typelib.unmarshal(typing.Union[int, str], K)", None, True),
+    ("typelib.unmarshal(typing.Union[bool, float, int], K)", None, True),
+    ("typelib.unmarshal(datetime.datetime, K)", None, True), ("typelib.unmarshal(datetime.timedelta, K)", None, True),
+    ("typelib.unmarshal(datetime.date, K)", None, True), ("typelib.unmarshal(typing.Literal[1, True], K)", None, True),
+    ("typelib.unmarshal(list[int], [K, K])", None, True), ("typelib.unmarshal(dict[int, int], {K: K})", None, True),
+    ("typelib.marshal(K)", None, True), ("typelib.marshal(K, t=float)", None, True),
+    ("typelib.marshal([K], t=list[int])", None, True), ("typelib.encode(K)", None, True), ("typelib.unmarshal(IE, K)", None, True),
+    ("typelib.marshal(K, t=typing.Union[bool, int, float])", None, True),
 ]
 NUM_GROUPS = [
     {"name": "one", "keys": ["1", "1.0", "True", "decimal.Decimal(1)", "fractions.Fraction(1)", "IE.one"]},
     {"name": "zero", "keys": ["0", "0.0", "False", "-0.0", "decimal.Decimal('0.0')"]},
 ]
 
+# `aliased`: the keys of the group are == but spell a union (or Literal) differently: the shape of finding unionOrderKey
 TYPE_GROUPS = [
     {"name": "union", "keys": ["typing.Union[int, str]", "typing.Union[str, int]", "(int | str)", "(str | int)"], "aliased": True},
     {"name": "optional", "keys": ["typing.Optional[int]", "typing.Union[None, int]", "(int | None)", "(None | int)"], "aliased": True},
@@ -514,48 +562,52 @@ TYPE_GROUPS = [
     {"name": "literal", "keys": ["typing.Literal[1, 'a']", "typing.Literal['a', 1]"], "aliased": True},
     {"name": "literal-1", "keys": ["typing.Literal[1]", "typing.Literal[True]", "typing.Literal[1, True]"]},
     {"name": "tuple", "keys": ["tuple[int, str]", "typing.Tuple[int, str]", "tuple[int, ...]"]},
-    {"name": "classes", "keys": ["DC", "NT", "TD", "SE", "int", "datetime.datetime"]},
+    {"name": "classes", "keys": ["DC", "NT", "TD", "SE", "int", "datetime.datetime"], "classes": True},
     {"name": "datetime-union", "keys": ["typing.Union[datetime.date, datetime.datetime]",
                                         "typing.Union[datetime.datetime, datetime.date]"], "aliased": True},
 ]
 ROUTINE_CALLS = [
-    ("probe(typelib.unmarshaller(K))", "unmarshaller"), ("probe(typelib.marshaller(K))", "marshaller"),
-    ("probe_codec(typelib.codec(K))", "codec"), ("graph.static_order(K)", "staticOrder"),
-    ("typelib.unmarshal(K, '5')", "unmarshaller"), ("typelib.marshal('5', t=K)", "marshaller"),
-    ("typelib.unmarshal(K, ['5', 5])", "unmarshaller"), ("typelib.unmarshal(K, {'a': '5', 'x': '7'})", "unmarshaller"),
-    ("typelib.encode(5, t=K)", "marshaller"), ("typelib.decode(K, b'\"5\"')", "unmarshaller"),
+    ("probe(typelib.unmarshaller(K))", "unmarshaller", True), ("probe(typelib.marshaller(K))", "marshaller", True),
+    ("probe_codec(typelib.codec(K))", "codec", True), ("graph.static_order(K)", "staticOrder", False),
+    ("typelib.unmarshal(K, '5')", "unmarshaller", True), ("typelib.marshal('5', t=K)", "marshaller", True),
+    ("typelib.unmarshal(K, ['5', 5])", "unmarshaller", True), ("typelib.unmarshal(K, {'a': '5', 'x': '7'})", "unmarshaller", True),
+    ("typelib.encode(5, t=K)", "marshaller", True), ("typelib.decode(K, b'\"5\"')", "unmarshaller", True),
 ]
+# sites whose arguments are classes / callables, not annotations
+CLASS_KEYED = ("cachedSignature", "getBinding", "cachedTypeHints", "getItemsIter", "cachedSimpleAttrs")
+DEDICATED = ("marshaller", "unmarshaller", "codec", "staticOrder", "strloadRaw", "dateparse", "futureTransform",
+             "resolveModuleName")
 
 
-def _pairs(n, quick):
-    return [(i, j) for i in range(n) for j in range(n)]
+def _plan_sites(sites, per_call):
+    """Batches of part (A): (group, [(call, entry, public)]).  quick: all public calls of a group share their forks (each
+    fork runs every call on k_i, then every call on k_j), and so do all internal sites; thorough: one call per fork."""
+    batches = []
 
-
-def _plan_sites(sites, quick):
-    """All (group, call, entry) triples of part (A)."""
-    plan = []
+    def add(g, calls):
+        if per_call:
+            batches.extend((g, [c]) for c in calls)
+        elif calls:
+            batches.append((g, list(calls)))
     for g in TEXT_GROUPS:
-        for call, entry in TEXT_CALLS:
-            plan.append((g, call, entry))
+        add(g, TEXT_CALLS)
     for g in STR_ONLY_GROUPS:
-        for call, entry in STR_ONLY_CALLS:
-            plan.append((g, call, entry))
+        add(g, [c for c in STR_ONLY_CALLS if c[2]])
+        add(g, [c for c in STR_ONLY_CALLS if not c[2]])
     for g in DT_GROUPS:
-        for call, entry in DT_CALLS:
-            plan.append((g, call, entry))
+        add(g, DT_CALLS)
     for g in NUM_GROUPS:
-        for call, entry in NUM_CALLS:
-            plan.append((g, call, entry))
+        add(g, NUM_CALLS)
     for g in TYPE_GROUPS:
-        for call, entry in ROUTINE_CALLS:
-            plan.append((g, call, entry))
+        add(g, [c for c in ROUTINE_CALLS if c[2]])
+        internal = [c for c in ROUTINE_CALLS if not c[2]]
         for s in sites:
             e = entry_of(s["name"])
-            if e in ("marshaller", "unmarshaller", "codec", "staticOrder", "strloadRaw", "dateparse", "futureTransform",
-                     "resolveModuleName"):
-                continue          # covered by the dedicated calls above
-            plan.append((g, f"SITE({s['name']!r})(K)", e or "UNCLASSIFIED"))
-    return plan
+            if e in DEDICATED or (e in CLASS_KEYED and not g.get("classes")):
+                continue
+            internal.append((f"SITE({s['name']!r})(K)", e or "UNCLASSIFIED", False))
+        add(g, internal)
+    return batches
 
 
 def _same_out(a, b):
@@ -571,9 +623,18 @@ def _short(o):
     return s if len(s) < 300 else s[:300] + "..."
 
 
+def _confirm_pair(job, ci, i, j):
+    """The 2-call history [call(k_i), call(k_j)] and the call on k_j alone, each in its own fork."""
+    base = {"keys": job["keys"], "calls": [job["calls"][ci]], "tt": job.get("tt"), "mutate": job.get("mutate")}
+    w, c = iso.map_isolated(_site_child, [dict(base, seq=[i, j]), dict(base, seq=[j], mutate=False)], timeout=30.0)
+    if isinstance(w, dict) or isinstance(c, dict):
+        return None
+    return not _same_out(w[1][0]["out"], c[0][0]["out"])
+
+
 def check_sites(ctx, res, table):
     """Part (A).  Returns the list of discovered sites."""
-    quick = ctx.tier == "quick"
+    per_call = ctx.tier != "quick"
     sites = iso.map_isolated(_discover, [None], timeout=120.0)[0]
     if isinstance(sites, dict) and "crash" in sites:
         raise RuntimeError(f"harness: site discovery failed: {sites}")
@@ -593,131 +654,136 @@ def check_sites(ctx, res, table):
             res.count("sites:declared-but-absent:" + e)
     res.extra["cache_sites"] = {e: sorted(v) for e, v in sorted(by_entry.items())}
 
-    plan = _plan_sites(sites, quick)
-    # ---- cold references: f(k) alone, one fork per (group, call, key)
-    cold_jobs, cold_index = [], {}
-    for g, call, entry in plan:
-        for ki in range(len(g["keys"])):
-            cold_index[(g["name"], call, ki)] = len(cold_jobs)
-            cold_jobs.append({"keys": g["keys"], "call": call, "seq": [ki]})
-    # ---- warm 2-call histories and call-mutate-call histories
-    warm_jobs = []
-    for g, call, entry in plan:
+    batches = _plan_sites(sites, per_call)
+    cold_jobs, cold_index, warm_jobs = [], {}, []
+    for bi, (g, calls) in enumerate(batches):
         n = len(g["keys"])
-        for i, j in _pairs(n, quick):
-            warm_jobs.append({"g": g["name"], "keys": g["keys"], "call": call, "entry": entry, "seq": [i, j], "eq": True,
-                              "aliased": bool(g.get("aliased"))})
+        base = {"g": g["name"], "keys": g["keys"], "calls": [c[0] for c in calls], "meta": calls, "tt": g.get("tt"),
+                "aliased": bool(g.get("aliased"))}
+        for ki in range(n):
+            cold_index[(bi, ki)] = len(cold_jobs)
+            cold_jobs.append(dict(base, seq=[ki]))
         for i in range(n):
-            warm_jobs.append({"g": g["name"], "keys": g["keys"], "call": call, "entry": entry, "seq": [i, i], "mutate": True,
-                              "aliased": bool(g.get("aliased"))})
-    cold = iso.map_isolated(_site_child, cold_jobs, timeout=120.0)
-    warm = iso.map_isolated(_site_child, warm_jobs, timeout=120.0)
+            for j in range(n):
+                warm_jobs.append(dict(base, b=bi, seq=[i, j]))
+            if any(c[2] for c in calls):
+                warm_jobs.append(dict(base, b=bi, seq=[i, i], mutate=True))
+    cold = iso.map_isolated(_site_child, cold_jobs, timeout=60.0)
+    warm = iso.map_isolated(_site_child, warm_jobs, timeout=60.0)
     res.count("siteA:cold-forks", len(cold_jobs))
     res.count("siteA:warm-forks", len(warm_jobs))
+    for x, jb in list(zip(cold, cold_jobs)) + list(zip(warm, warm_jobs)):
+        if isinstance(x, dict) and "crash" in x:
+            raise RuntimeError(f"harness: site child crashed: {x} for {jb['g']} {jb['calls'][:3]} {jb['seq']}")
 
-    observed = {}            # entry -> {"noncongruent": n, "shared_mutable": n, "shared": n, "fresh": n}
+    observed = {}
     model_lines, model_meta = [], []
+    confirm_budget = [12]
     for job, w in zip(warm_jobs, warm):
-        if isinstance(w, dict) and "crash" in w:
-            raise RuntimeError(f"harness: site child crashed: {w} for {job}")
         i, j = job["seq"]
-        c = cold[cold_index[(job["g"], job["call"], j)]]
-        ci = cold[cold_index[(job["g"], job["call"], i)]]
-        if isinstance(c, dict) and "crash" in c:
-            raise RuntimeError(f"harness: cold site child crashed: {c}")
-        entry = job["entry"]
-        decl = table.get(entry)
-        ob = observed.setdefault(entry, {"noncongruent": 0, "ok": 0, "shared_mutable": 0, "shared_immutable": 0, "fresh_mutable": 0})
-        second, first = w[1], w[0]
-        hist = {"call": job["call"], "keys": [job["keys"][i], job["keys"][j]], "mutate_first_result": bool(job.get("mutate")),
-                "site_entry": entry}
-        case = {"call": job["call"], "k1": job["keys"][i], "k2": job["keys"][j], "mut": bool(job.get("mutate"))}
-        ok_second = _same_out(second["out"], c[0]["out"])
-        ok_first = _same_out(first["out"], ci[0]["out"])
-        res.case(case, i != j or bool(job.get("mutate")))
-        res.count("siteA:" + ("mutate" if job.get("mutate") else "pair") + ":" + ("ok" if (ok_second and ok_first) else "DIFF"))
-        if not ok_first:
-            # the very first call of a fresh fork differs from the same call in another fresh fork: nondeterminism
-            res.failures.append({"what": f"{job['call']} on {job['keys'][i]} is not deterministic across cold processes",
-                                 "input": hist, "warm": first["out"], "cold": ci[0]["out"]})
-            continue
-        keys_equal = bool(first.get("keys_equal")) if not job.get("mutate") else True
-        uses = not _same_out(ci[0]["out"], c[0]["out"])
-        # ---- the property on the real code
-        if not ok_second:
-            ob["noncongruent"] += 1
-            f = {"what": (f"call-mutate-call: {job['call']} with K = {job['keys'][j]} returned {_short(second['out'])} after the "
-                          f"caller mutated the previous result; cold: {_short(c[0]['out'])}") if job.get("mutate") else
-                         (f"{job['call']} with K = {job['keys'][j]} returned {_short(second['out'])} after the same call with the "
-                          f"equal key {job['keys'][i]}; alone in a cold process: {_short(c[0]['out'])}"),
-                 "input": hist, "warm": second["out"], "cold": c[0]["out"]}
-            if job["aliased"] and not job.get("mutate") and i != j and decl is not None and not decl["congruent"] \
-                    and job["g"] not in ("literal",):
-                f["finding"] = FINDING
-            elif job["aliased"] and job["g"] == "literal" and decl is not None and not decl["congruent"]:
-                f["finding"] = FINDING
-                res.count("siteA:literal-order-aliased")
-            res.failures.append(f)
-        else:
-            ob["ok"] += 1
-        if second.get("key_changed") or first.get("key_changed"):
-            res.failures.append({"what": f"{job['call']} mutated its input {job['keys'][j]}", "input": hist})
-        # ---- freshness of what is returned twice (same key object class, i == j)
-        if i == j and "ok" in second["out"] and "same_as" in second:
-            shared = bool(second["same_as"]) or bool(second["shares_with"])
-            if second.get("mutable") or second["shares_with"]:
-                ob["shared_mutable" if shared else "fresh_mutable"] += 1
-                if shared and (decl is None or not (decl["shared"] and decl["mutable"])):
-                    res.failures.append({"what": f"{job['call']} with K = {job['keys'][j]} returned the same mutable "
-                                                 f"{second['cls']} object (or shared mutable substructure) twice",
-                                         "input": hist})
-            elif shared:
-                ob["shared_immutable"] += 1
-        # ---- abstract cross-check: what does the memo machine say about this 2-step history?
-        if decl is not None or entry is None:
-            d = decl or {"shared": False, "mutable": True, "congruent": True}
-            cached_site = entry is not None
-            site = {"shared": bool(d["shared"]) if cached_site else False, "mutable": bool(second.get("mutable", False)) if not cached_site else bool(d["mutable"]),
-                    "forgets": bool(cached_site and keys_equal and i != j), "uses": bool(uses)}
-            ops = [["call", 0, 0, 0]] + ([["mutate", 1]] if job.get("mutate") else []) + [["call", 0, 0, 0 if i == j else 1]]
-            model_lines.append({"op": "cache.run", "sites": [site], "ops": ops})
-            model_meta.append((job, hist, ok_second, site))
-    # the abstract machine must agree with the real outcome pattern (equal to cold / not)
+        cj = cold[cold_index[(job["b"], j)]][0]
+        ci_ = cold[cold_index[(job["b"], i)]][0]
+        mut = bool(job.get("mutate"))
+        for ci, (call, entry, public) in enumerate(job["meta"]):
+            first, second = w[0][ci], w[1][ci]
+            c2, c1 = cj[ci], ci_[ci]
+            decl = table.get(entry)
+            ob = observed.setdefault(entry, {"differs": 0, "ok": 0, "shared_mutable": 0, "shared_immutable": 0, "fresh_mutable": 0})
+            hist = {"call": call, "keys": [job["keys"][i], job["keys"][j]], "mutate_first_result": mut, "site_entry": entry,
+                    "tt": job.get("tt")}
+            res.case({"call": call, "k1": job["keys"][i], "k2": job["keys"][j], "mut": mut}, i != j or mut)
+            ok_first = _same_out(first["out"], c1["out"])
+            ok_second = _same_out(second["out"], c2["out"])
+            res.count("siteA:" + ("mutate" if mut else "pair") + ":" + ("public" if public else "internal") + ":"
+                      + ("same-as-cold" if ok_second else "DIFFERS"))
+            keys_equal = True if i == j else bool(first.get("keys_equal"))
+            uses = not _same_out(c1["out"], c2["out"])
+            tagged = (job["aliased"] and not mut and i != j and decl is not None and not decl["congruent"])
+            if public:
+                if not ok_first and len(job["calls"]) == 1:
+                    res.failures.append({"what": f"{call} with K = {job['keys'][i]} is not deterministic across cold processes",
+                                         "input": hist, "warm": first["out"], "cold": c1["out"]})
+                if not ok_second:
+                    ob["differs"] += 1
+                    f = {"what": (f"call-mutate-call: {call} with K = {job['keys'][j]} returned {_short(second['out'])} after "
+                                  f"the caller deep-mutated the previous result; alone in a cold process: {_short(c2['out'])}") if mut
+                         else (f"{call} with K = {job['keys'][j]} returned {_short(second['out'])} after the same call with the "
+                               f"{'equal ' if keys_equal else ''}key {job['keys'][i]}; alone in a cold process: {_short(c2['out'])}"),
+                         "input": hist, "warm": second["out"], "cold": c2["out"]}
+                    if tagged:
+                        f["finding"] = FINDING
+                    elif len(job["calls"]) > 1:
+                        if confirm_budget[0] > 0:
+                            confirm_budget[0] -= 1
+                            f["two_call_history_reproduces"] = _confirm_pair(job, ci, i, j)
+                        if not f.get("two_call_history_reproduces"):
+                            # the forks of the quick tier run a whole batch of calls: that batch is the history
+                            hist["batch"], hist["batch_index"] = job["calls"], ci
+                            f["what"] += (f"  [history: each of the {len(job['calls'])} calls of the batch with K = {job['keys'][i]}"
+                                          f"{', deep-mutating every result' if mut else ''}, then the first {ci + 1} of them with K = "
+                                          f"{job['keys'][j]}; see input.batch]")
+                    res.failures.append(f)
+                else:
+                    ob["ok"] += 1
+                if second.get("key_changed") or first.get("key_changed"):
+                    res.failures.append({"what": f"{call} mutated its input {job['keys'][j]}", "input": hist})
+            else:
+                ob["differs" if (not ok_second and i != j) else "ok"] += 1
+            # ---- what is returned twice for one key
+            if i == j and not mut and "ok" in second["out"] and "same_as" in second:
+                shared = bool(second["same_as"]) or bool(second["shares_with"])
+                if second.get("has_mutable"):
+                    ob["shared_mutable" if shared else "fresh_mutable"] += 1
+                    if shared and public:
+                        res.failures.append({"what": f"{call} with K = {job['keys'][j]} returned the same mutable {second['cls']} "
+                                                     f"object (or shared mutable substructure) twice", "input": hist})
+                elif shared:
+                    ob["shared_immutable"] += 1
+            # ---- abstract cross-check (public calls): the memo machine instantiated with the declared flags
+            if public:
+                d = decl or {"shared": False, "mutable": True}
+                site = {"shared": bool(d["shared"]) if decl else False,
+                        "mutable": bool(d["mutable"]) if decl else bool(second.get("has_mutable", False)),
+                        "forgets": bool(decl is not None and keys_equal and i != j), "uses": bool(uses)}
+                ops = [["call", 0, 0, 0]] + ([["mutate", 1]] if mut else []) + [["call", 0, 0, 0 if i == j else 1]]
+                model_lines.append({"op": "cache.run", "sites": [site], "ops": ops})
+                model_meta.append((call, entry, hist, ok_second, site))
     if model_lines:
         answers = lean.drive(model_lines)
-        for (job, hist, ok_second, site), m in zip(model_meta, answers):
+        for (call, entry, hist, ok_second, site), m in zip(model_meta, answers):
             if "bad" in m:
                 raise RuntimeError(f"driver: {m}")
             pred_equal = m["cached"][-1] == m["cold"][-1]
-            entry = job["entry"]
             if pred_equal == ok_second:
-                res.count("siteA:model-agrees")
+                res.count("siteA:memo-machine-agrees")
             elif pred_equal and not ok_second:
-                # the machine instantiated with the DECLARED flags says history independent; the code is not
-                res.count("siteA:MODEL-DISAGREES")
-                res.disagreements.append({"what": f"memo machine with the declared classification of {entry or 'an uncached function'} "
-                                                  f"predicts the cold result, the real code differs", "input": hist,
-                                          "real": "differs from cold", "model": {"site": site, "cached": m["cached"], "cold": m["cold"]}})
+                res.count("siteA:MEMO-MACHINE-DISAGREES")
+                res.disagreements.append({"what": f"the memo machine with the declared classification of "
+                                                  f"{entry or 'an unmemoised function'} predicts the cold result for {call}; the real "
+                                                  f"code differs", "input": hist, "real": "differs from cold",
+                                          "model": {"site": site, "cached": m["cached"], "cold": m["cold"]}})
             else:
-                # the machine predicts a difference the code does not show: the real key function forgets less / the result
-                # does not depend on what the harness thought (e.g. typing's cache returned the first object itself)
-                res.count("siteA:model-overpredicts")
+                # predicted sharing that the code does not show (the real key function forgets less than ==, e.g.
+                # strload separates nothing it should not; typing returned the first object itself)
+                res.count("siteA:memo-machine-overpredicts")
     # ---- the declared classification against what was observed
-    for entry, ob in sorted(observed.items()):
+    for entry, ob in sorted(observed.items(), key=lambda kv: str(kv[0])):
         decl = table.get(entry)
+        res.count(f"class:{entry}:" + json.dumps(ob, sort_keys=True))
         if decl is None:
             continue
-        res.count(f"class:{entry}:" + json.dumps(ob, sort_keys=True))
-        if decl["congruent"] and ob["noncongruent"]:
+        if decl["congruent"] and ob["differs"]:
             res.count(f"class:{entry}:DECLARED-CONGRUENT-BUT-NOT")
-            res.disagreements.append({"what": f"site-table: {entry} is declared key-congruent and fresh-or-immutable "
-                                              f"but {ob['noncongruent']} equal-key histories differ from cold",
-                                      "input": {"entry": entry}, "real": ob, "model": decl})
-        if not decl["congruent"] and not ob["noncongruent"] and decl["public"]:
+            res.disagreements.append({"what": f"site-table: {entry} is declared key-congruent but {ob['differs']} equal-key "
+                                              f"histories differ from the cold run", "input": {"entry": entry}, "real": ob,
+                                      "model": decl})
+        if not decl["congruent"] and not ob["differs"]:
             res.count(f"class:{entry}:declared-noncongruent-no-witness(stale?)")
-        if decl["shared"] is False and ob["shared_mutable"]:
-            res.disagreements.append({"what": f"site-table: {entry} is declared to return fresh copies but returned a shared mutable object",
-                                      "input": {"entry": entry}, "real": ob, "model": decl})
+        if ob["shared_mutable"] and not (decl["shared"] and decl["mutable"]):
+            res.count(f"class:{entry}:RETURNS-SHARED-MUTABLE-UNDECLARED")
+            res.disagreements.append({"what": f"site-table: {entry} returned one mutable object twice but is declared "
+                                              f"{'fresh' if not decl['shared'] else 'immutable'}", "input": {"entry": entry},
+                                      "real": ob, "model": decl})
     return sites
 
 
@@ -1046,9 +1112,15 @@ def cold_deps(ops, j):
     return None
 
 
+def scrub(o):
+    """Addresses never take part in a comparison (str(memoryview) = '<memory at 0x7f…>' can end up inside a result)."""
+    return json.loads(_ADDR.sub("0x", json.dumps(o)))
+
+
 def same_outcome(a, b, unordered=False):
     if a is None or b is None:
         return a is b
+    a, b = scrub(a), scrub(b)
     if "crash" in a or "crash" in b:
         return ("crash" in a) == ("crash" in b)
     if "none" in a or "none" in b:
@@ -1236,10 +1308,17 @@ def gen_history(rng, g, prog, max_len, force_twins):
                 continue
             calls.append(len(ops))
             ops.append({"op": kind, "ty": ts, "val": v})
-        elif r < 0.78:
-            ops.append({"op": "mutres", "of": rng.choice(calls)})
         elif r < 0.86:
-            ops.append({"op": "mutin", "of": rng.choice(calls)})
+            # deep-mutate an earlier result / input; often followed by the same call again (call-mutate-call), with the
+            # same or an equal-but-distinct input
+            i = rng.choice(calls)
+            ops.append({"op": "mutres" if r < 0.78 else "mutin", "of": i})
+            if rng.random() < 0.6:
+                again = copy.deepcopy(ops[i])
+                if rng.random() < 0.3:
+                    again["val"] = twin_value(rng, again["val"], prog) or again["val"]
+                calls.append(len(ops))
+                ops.append(again)
         elif r < 0.94:
             ops.append({"op": "read", "of": rng.choice(calls)})
         else:
@@ -1337,7 +1416,7 @@ def show_history(prog, ops):
 
 def check_histories(ctx, res):
     quick = ctx.tier == "quick"
-    n_hist = ctx.n(36, 500)
+    n_hist = ctx.n(160, 3000)
     max_len = 12 if quick else 30
     rng = ctx.rng
     hists = []
@@ -1413,6 +1492,7 @@ def check_histories(ctx, res):
     res.count("hist:predicted-forks", len(pred_jobs))
 
     new_failures = []
+    diverged = set()         # (history, op) whose outcome differs from cold: reading that result back adds nothing
     for hi, (h, w) in enumerate(zip(hists, warm)):
         prog, ops, info = h["prog"], h["ops"], infos[hi]
         if isinstance(w, dict) and "crash" in w:
@@ -1440,6 +1520,9 @@ def check_histories(ctx, res):
             if isinstance(wo, dict) and "input_mutated" in wo:
                 res.failures.append({"what": f"operation #{j} {show_history(prog, [op])[0]} mutated its input",
                                      "input": inp, "detail": wo["input_mutated"]})
+            if op["op"] == "read" and (hi, op["of"]) in diverged:
+                res.count("hist:read-of-an-already-diverged-result")
+                continue
             if same_outcome(wo, co, unordered):
                 res.count("hist:op-same-as-cold")
                 if (hi, j) in pred_at:
@@ -1450,6 +1533,7 @@ def check_histories(ctx, res):
                         res.count("hist:model-overpredicts")
                         res.extra.setdefault("overpredicted", []).append(show_history(prog, ops[:j + 1])[-4:])
                 continue
+            diverged.add((hi, j))
             explained = None
             if (hi, j) in pred_at:
                 p = pred[pred_at[(hi, j)]]
@@ -1547,10 +1631,22 @@ def replay(failure):
     if "call" in inp:
         ks = inp["keys"]
         seq = [0, 1] if len(ks) > 1 else [0, 0]
-        jobs = [{"keys": ks, "call": inp["call"], "seq": seq, "mutate": inp.get("mutate_first_result", False)},
-                {"keys": ks, "call": inp["call"], "seq": [seq[1]]}]
+        calls, at = (inp["batch"], inp["batch_index"]) if "batch" in inp else ([inp["call"]], 0)
+        base = {"keys": ks, "calls": calls, "tt": inp.get("tt")}
+        jobs = [dict(base, seq=seq, mutate=inp.get("mutate_first_result", False)), dict(base, seq=[seq[1]])]
         w, c = iso.map_isolated(_site_child, jobs, timeout=120.0)
-        print(json.dumps({"call": inp["call"], "keys": ks, "warm": w, "cold": c}, indent=1, default=str)[:4000])
-        return not _same_out(w[-1]["out"], c[0]["out"])
+        if isinstance(w, dict) or isinstance(c, dict):
+            print(json.dumps({"warm": w, "cold": c}, indent=1, default=str)[:3000])
+            return True
+        if "batch" in inp:
+            print(json.dumps({"history": f"each of {calls} with K = {ks[seq[0]]}, then again with K = {ks[seq[1]]}",
+                              "observed call": calls[at], "warm": w[-1][at]["out"],
+                              "cold (the batch with K = %s only)" % ks[seq[1]]: c[0][at]["out"]}, indent=1, default=str)[:4000])
+            return not _same_out(w[-1][at]["out"], c[0][at]["out"])
+        print(json.dumps({"history": [f"{inp['call']}  with K = {ks[seq[0]]}"]
+                          + (["deep-mutate that result"] if inp.get("mutate_first_result") else [])
+                          + [f"{inp['call']}  with K = {ks[seq[1]]}"],
+                          "warm (last call)": w[-1][0]["out"], "cold (last call alone)": c[0][0]["out"]}, indent=1, default=str)[:4000])
+        return not _same_out(w[-1][0]["out"], c[0][0]["out"])
     print(json.dumps(failure, indent=1, default=str)[:3000])
     return True
